@@ -30,7 +30,7 @@ var soup = []string{"#", "# ", "###### ", "\n", "\n\n", "*", "**", "***", "_", "
 var deepToks = []string{">", "> ", "- ", "* ", "+ ", "1. ", "[", "![", "`", "*", "_", "(", "<", "**a ", "*a ", "_a ", "[a](", "~~", "$", "$$", "\\", "    ", "\t", "[^", "|", "<div>", "&", "- [ ] ", "> - ", "[[", "]("}
 
 func genBytes(t *rapid.T) Case {
-	c := Case{Kind: "bytes", Opts: genOpts(t)}
+	c := Case{Kind: "bytes", Opts: genOpts(t), Warm: genWarm(t)}
 	c.Entry = rapid.SampledFrom([]string{"bytes", "bytes", "string", "file"}).Draw(t, "entry")
 	c.Cls = rapid.SampledFrom([]string{"random", "utf8", "soup", "soup", "soup", "deep", "table", "dollar", "latex", "splice", "splice"}).Draw(t, "cls")
 	switch c.Cls {
@@ -105,6 +105,33 @@ var words = []string{"alpha", "Beta", "gamma", "delta", "lorem", "ipsum", "dolor
 	"naïve", "Über", "Привет", "мир", "漢字", "テスト", "한글", "😀", "end.", "then,", "so;", "what?", "it's", "\"q\"", "&", "<", "Zürich", "éa", "I", "go"}
 
 var codeWords = []string{"x", "y1", "foo()", "a+b", "i<n", "&amp;", "*p", "#inc", "<b>", "|", "$v$", "[z](u)", "\\n", "_k_", "ret", "=", "{", "}", "--", "\"s\"", "1.", "- l", "> q"}
+
+// labels that the warm-up documents define as link references and that fidelity documents use in brackets
+// without defining them
+var refLabels = []string{"spec", "ref", "note", "1", "alpha", "Spec"}
+
+// warmPool: documents converted on the same Converter before the judged one. They leave behind whatever a
+// parser keeps per parse: link reference definitions, footnote definitions, heading ids, open math state.
+var warmPool = []string{
+	"# Glossary\n\nRead the [spec] first, then [the ref][ref].\n\n[spec]: http://example.com/spec\n[ref]: <http://example.com/r> \"title\"\n[note]: /n\n[1]: /one\n[alpha]: /a\n",
+	"Text[^1] and[^note] more.\n\n[^1]: first note\n[^note]: second note\n\n[note]: /n\n[ref]: /r\n",
+	"# alpha\n\n## alpha\n\n# Title one\n\nSetext two\n-----\n\n[alpha]: /a 't'\n[1]: /1\n",
+	"$$\na+b\n$$\n\n| a | b |\n|:-:|--:|\n| 1 | $x$ |\n\n$x$ text [spec][]\n\n[spec]: /s\n",
+	"> - [ ] task [ref]\n>\n> [ref]: /quoted\n\n```\n[spec]: /in-code\n",
+	"- item\n\n  $$\n  open\n\n[SPEC]: /upper\n[note]:\n  /nextline\n",
+}
+
+func genWarm(t *rapid.T) []string {
+	if rapid.SampledFrom([]string{"fresh", "reused", "fresh", "reused", "fresh"}).Draw(t, "reuse") == "fresh" {
+		return nil
+	}
+	n := rapid.IntRange(1, 2).Draw(t, "nwarm")
+	var out []string
+	for i := 0; i < n; i++ {
+		out = append(out, rapid.SampledFrom(warmPool).Draw(t, "warm"))
+	}
+	return out
+}
 
 type g struct {
 	t    *rapid.T
@@ -221,6 +248,9 @@ func (g *g) inlines(ctx string, max int) []Inl {
 				kinds = append(kinds, "sb", "sb")
 			}
 		}
+		if i > 0 { // bracketed words that no definition in THIS document turns into links: literal text
+			kinds = append(kinds, "br")
+		}
 		if g.o.Math && (ctx == "p" || i > 0) { // formulas in every context; a container's text starts with a word
 			kinds = append(kinds, "math")
 		}
@@ -246,6 +276,12 @@ func (g *g) inlines(ctx string, max int) []Inl {
 			out = append(out, g.codeSpan())
 		case "math":
 			out = append(out, Inl{K: "math", S: g.mathText()})
+		case "br":
+			x := Inl{K: "br", S: rapid.SampledFrom(refLabels).Draw(g.t, "label")}
+			if g.pct("fullref", 35) {
+				x.C = []Inl{g.text(2)}
+			}
+			out = append(out, x)
 		case "sb":
 			out = append(out, Inl{K: "sb"})
 		case "hb":
@@ -427,6 +463,33 @@ func (g *g) block(depth int, top bool) Blk {
 			b.Info = rapid.SampledFrom([]string{"", "", "go", "python", "text"}).Draw(g.t, "info")
 		}
 		b.Lines = g.codeLines(top, !b.Fenced)
+		if b.Fenced && top && g.pct("fenceindent", 45) {
+			// fences indented 1-3 blanks; the raw content lines start with the same blanks, fewer, more, a tab,
+			// tabs, or tab+blanks - CommonMark removes up to FIndent columns from each
+			b.FIndent = rapid.IntRange(1, 3).Draw(g.t, "findent")
+			for i, l := range b.Lines {
+				if l == "" {
+					continue
+				}
+				body := strings.TrimLeft(l, " \t")
+				switch rapid.SampledFrom([]string{"same", "same", "tab", "tab", "tabs", "tab+sp", "less", "more", "sp+tab"}).Draw(g.t, "lead") {
+				case "same":
+					b.Lines[i] = strings.Repeat(" ", b.FIndent) + l
+				case "tab":
+					b.Lines[i] = "\t" + body
+				case "tabs":
+					b.Lines[i] = "\t\t" + body
+				case "tab+sp":
+					b.Lines[i] = "\t  " + body
+				case "less":
+					b.Lines[i] = strings.Repeat(" ", b.FIndent-1) + body
+				case "more":
+					b.Lines[i] = strings.Repeat(" ", b.FIndent+3) + body
+				case "sp+tab":
+					b.Lines[i] = " \t" + body
+				}
+			}
+		}
 		if !b.Fenced { // an indented block cannot start or end with a blank line, nor start with deeper indentation only
 			b.Lines[0] = strings.TrimLeft(b.Lines[0], " ")
 		}
@@ -452,7 +515,7 @@ func (g *g) block(depth int, top bool) Blk {
 var hardModes = []string{"escape", "autolink", "hardbreak", "nested", "inline", "cell", "blocks", "tablesoff", "headeronly"}
 
 func genAST(t *rapid.T) Case {
-	c := Case{Kind: "ast", Opts: genOpts(t), Entry: rapid.SampledFrom([]string{"bytes", "string"}).Draw(t, "entry")}
+	c := Case{Kind: "ast", Opts: genOpts(t), Entry: rapid.SampledFrom([]string{"bytes", "string"}).Draw(t, "entry"), Warm: genWarm(t)}
 	gg := &g{t: t, hard: map[string]bool{}}
 	// about a quarter of the fidelity cases carry one class of input on which an open finding is known
 	if rapid.IntRange(0, 3).Draw(t, "hard") == 0 {
@@ -481,6 +544,9 @@ func genAST(t *rapid.T) Case {
 // second one becomes a fenced block (same lines).
 func separateIndented(bs []Blk) {
 	for i := range bs {
+		if i > 0 && isList(bs[i-1]) {
+			bs[i].FIndent = 0 // an indented fence after a list would belong to the last item
+		}
 		if i > 0 && bs[i].K == "code" && !bs[i].Fenced && bs[i-1].K == "code" && !bs[i-1].Fenced {
 			bs[i].Fenced = true
 		}
